@@ -63,7 +63,53 @@ def depends(v, name):
         return False
     if isinstance(v, tuple):
         return any(depends(x, name) for x in v)
+    if not isinstance(v, F.Rat):
+        return False
     return v.depends_on(name)
+
+
+# ---------------------------------------------------------------------------------------------------------------- values that are not formulas
+class Closure:
+    """a function defined inside the function being evaluated (`def` statement or lambda): called on its argument values in the scope that
+    defined it (late binding: the defining scope's environment at the time of the call)"""
+
+    def __init__(self, node, ev):
+        self.node, self.ev = node, ev
+
+    def __repr__(self):
+        return f"Closure({getattr(self.node, 'name', 'lambda')})"
+
+
+class Getter:
+    """operator.attrgetter(...) / operator.itemgetter(...) with constant keys"""
+
+    def __init__(self, kind, keys):
+        self.kind, self.keys = kind, tuple(keys)
+
+    def __repr__(self):
+        return f"Getter({self.kind}, {self.keys})"
+
+
+class Partial:
+    """functools.partial(f, *args, **kw)"""
+
+    def __init__(self, func, args, kw):
+        self.func, self.args, self.kw = func, list(args), dict(kw)
+
+    def __repr__(self):
+        return f"Partial({self.func!r})"
+
+
+def is_callable_value(v):
+    return isinstance(v, (Closure, Getter, Partial))
+
+
+HEAP = "obj#"
+
+
+def slot_key(k):
+    """text of a constant key (a string or an integer) in the name of a heap slot: obj#3['frc'], obj#3[0]"""
+    return repr(k)
 
 
 # ---------------------------------------------------------------------------------------------------------------- truth of a value
@@ -80,6 +126,7 @@ class Facts:
         self.generic_prefix = generic_prefix
         self.distinct = set(distinct)
         self.tests = []
+        self.lost = []                      # calls whose effects on the arrays could not be followed: the evaluation must not be used
 
     def is_generic(self, name):
         return name in self.generic or (self.generic_prefix is not None and name.startswith(self.generic_prefix))
@@ -93,6 +140,8 @@ def free_syms(v, out=None):
     if isinstance(v, tuple):
         for x in v:
             free_syms(x, out)
+        return out
+    if not isinstance(v, F.Rat):
         return out
     for p_ in (v.n, v.d):
         for a in p_.atoms():
@@ -166,6 +215,8 @@ def truth(v, facts):
         return None
     if isinstance(v, tuple):
         return len(v) > 0
+    if not isinstance(v, F.Rat):
+        return True if is_callable_value(v) else None
     for fv, tv in facts.truths:
         if v.equals(fv):
             return tv
@@ -235,7 +286,9 @@ class ModConsts:
             return None
         val = None
         for st in m.tree.body:
-            if isinstance(st, (ast.Assign, ast.AnnAssign)):
+            if isinstance(st, ast.FunctionDef) and st.name == name and depth > 0:
+                val = F.sym(name)           # a function named inside a module-level table: the reference to it
+            elif isinstance(st, (ast.Assign, ast.AnnAssign)):
                 tg = st.targets if isinstance(st, ast.Assign) else [st.target]
                 if st.value is not None and any(isinstance(t, ast.Name) and t.id == name for t in tg):
                     val = self._lit(st.value, rel, depth)
@@ -263,8 +316,28 @@ class ModConsts:
             return self.get(rel, node.id, depth + 1)
         if isinstance(node, ast.UnaryOp) and isinstance(node.op, ast.USub):
             v = self._lit(node.operand, rel, depth)
-            return None if v is None or isinstance(v, tuple) else -v
+            return None if v is None or isinstance(v, tuple) or not isinstance(v, F.Rat) else -v
+        if isinstance(node, ast.Call):
+            return getter_of(node)
         return None
+
+
+def getter_of(node):
+    """operator.attrgetter('a', 'b') / operator.itemgetter(0, 2) with constant keys -> Getter, else None"""
+    d = dotted(node.func) or ""
+    kind = {"attrgetter": "attr", "itemgetter": "item"}.get(d.split(".")[-1])
+    if kind is None or node.keywords or not node.args or d.split(".")[0] not in ("operator", "attrgetter", "itemgetter"):
+        return None
+    keys = []
+    for a in node.args:
+        if not isinstance(a, ast.Constant) or isinstance(a.value, bool):
+            return None
+        if kind == "attr" and not isinstance(a.value, str):
+            return None
+        if kind == "item" and not isinstance(a.value, (int, str)):
+            return None
+        keys.append(a.value)
+    return Getter(kind, keys)
 
 
 def parent_if(node):
@@ -289,6 +362,10 @@ def _contains(stmts, types):
 
 def _has_yield(node):
     return any(isinstance(n, (ast.Yield, ast.YieldFrom)) for n in ast.walk(node))
+
+
+def _has_yield_in_handlers(st):
+    return any(_has_yield(x) for h in st.handlers for x in h.body)
 
 
 def _only_raises(stmts):
@@ -331,11 +408,18 @@ def _store_targets(stmts):
 # ---------------------------------------------------------------------------------------------------------------- the evaluator
 class GenEval(AutoEvaluator):
     def __init__(self, ctx, fn, env=None, facts=None, inline=None, refhook=None, sided=False, carry=None, fresh_arrays=False,
-                 consts=None, depth=0, strict=False):
+                 consts=None, depth=0, strict=False, shapes=None, heap=None, heap_written=None, heap_carried=None):
         super().__init__(None, src=ctx.src, env=env)
         self.ctx = ctx
         self.fn = fn
         self.rel = rel_of(fn)
+        self.shapes = shapes if shapes is not None else {}      # symbol of an array -> tuple of its dimensions (values)
+        self.heap = heap if heap is not None else {}            # obj#N -> kind ('namespace' | 'dict'): mutable objects live in env as obj#N.attr / obj#N['key']
+        self.heap_written = heap_written if heap_written is not None else set()     # heap slots stored into inside the generator loop
+        self.heap_carried = heap_carried                        # heap slots that start the iteration as carry symbols (None: all that exist at loop entry)
+        self.heap_entry = []                                    # heap slots that existed at loop entry
+        self.loop_ev = None                                     # the evaluator that ran the generator loop (self, or a `yield from` sub-generator)
+        self.skipped_handlers = []                              # `except` handlers not followed
         self.facts = facts or Facts()
         self.cond = self._cond
         self.inline = inline or {}
@@ -363,9 +447,15 @@ class GenEval(AutoEvaluator):
         params = {x.arg for x in a.posonlyargs + a.args + a.kwonlyargs} | ({a.vararg.arg} if a.vararg else set()) | ({a.kwarg.arg} if a.kwarg else set())
         self.params_ = params
         self.locals_ = set()
+        self.nonlocals_ = set()
         for n in walk_no_nested(fn):
             if isinstance(n, ast.Name) and isinstance(n.ctx, (ast.Store, ast.Del)) and n.id not in params:
                 self.locals_.add(n.id)
+            elif isinstance(n, (ast.Nonlocal, ast.Global)):
+                self.nonlocals_.update(n.names)
+            elif isinstance(n, (ast.FunctionDef, ast.AsyncFunctionDef)) and n is not fn:
+                self.locals_.add(n.name)
+        self.locals_ -= self.nonlocals_
 
     # ------------------------------------------------------------------ conditions
     def _cond(self, test, ev):
@@ -385,6 +475,18 @@ class GenEval(AutoEvaluator):
             if self.in_loop:
                 return (J, F1ALL)
             return NONE
+        if isinstance(node, ast.YieldFrom):
+            return self._yield_from(node)
+        if isinstance(node, ast.Lambda):
+            return Closure(node, self)
+        if isinstance(node, ast.Dict) and all(k is not None for k in node.keys):
+            return self._new_dict([(self.ev(k), self.ev(v)) for k, v in zip(node.keys, node.values)], node)
+        if isinstance(node, ast.Compare) and len(node.ops) == 1 and isinstance(node.ops[0], (ast.Is, ast.IsNot, ast.Eq, ast.NotEq)):
+            a, b = self.ev(node.left), self.ev(node.comparators[0])
+            for x, y in ((a, b), (b, a)):
+                # a tuple, a function or an object created here is not None
+                if symname(x) == "None" and (isinstance(y, tuple) or is_callable_value(y) or (symname(y) or "").startswith(HEAP)):
+                    return F.sym("False" if isinstance(node.ops[0], (ast.Is, ast.Eq)) else "True")
         if isinstance(node, (ast.ListComp, ast.GeneratorExp)):
             return self._comprehension(node)
         if isinstance(node, ast.JoinedStr):
@@ -459,13 +561,18 @@ class GenEval(AutoEvaluator):
         if d is not None and d in self.env:
             return self.env[d]
         base = self._ev(node.value)
+        return self.attr_value(base, node.attr, node)
+
+    def attr_value(self, base, attr, node=None):
+        """value of <base value>.attr"""
         if is_unknown(base):
             return base
-        attr = node.attr
         if attr == "T":
             return self._T(base)
         if isinstance(base, tuple):
-            return Unknown(f"attribute of a tuple {ast.unparse(node)}")
+            return Unknown(f"attribute `{attr}` of a tuple")
+        if not isinstance(base, F.Rat):
+            return Unknown(f"attribute `{attr}` of {base!r}")
         if attr in ("real", "imag"):
             return F.fn("re" if attr == "real" else "im", need(base))
         s = symname(base)
@@ -473,8 +580,64 @@ class GenEval(AutoEvaluator):
             dd = f"{s}.{attr}"
             if dd in self.env:
                 return self.env[dd]
+            if attr == "shape" and s in self.shapes:
+                return self.shapes[s]
+            if s.startswith(HEAP):
+                if self.heap.get(s) == "dict":
+                    return F.sym(f"{s}.{attr}")         # a method of the dict (.get, .items ...): the call decides
+                return Unknown(f"attribute `{attr}` of the object is not defined")
             return F.sym(dd)
         return F.fn("attr:" + attr, need(base))
+
+    # ---- mutable objects created by the code (SimpleNamespace, dict): identity obj#N, content in env
+    def _new_obj(self, kind):
+        s = f"{HEAP}{len(self.heap)}"
+        self.heap[s] = kind
+        return s
+
+    def _new_namespace(self, kws, node):
+        s = self._new_obj("namespace")
+        for k, v in kws.items():
+            self.env[f"{s}.{k}"] = v
+        return F.sym(s)
+
+    def _const_key(self, v):
+        """the Python constant (str / int) an index value stands for, else None"""
+        if v is None or is_unknown(v) or isinstance(v, tuple) or not isinstance(v, F.Rat):
+            return None
+        t = strconst(v)
+        if t is not None:
+            return t
+        if v.is_const() and v.const_value().denominator == 1:
+            return int(v.const_value())
+        return None
+
+    def _new_dict(self, items, node):
+        s = self._new_obj("dict")
+        for k, v in items:
+            ck = self._const_key(k)
+            if ck is None:
+                return Unknown("dict with a key that is not a constant")
+            self.env[f"{s}[{slot_key(ck)}]"] = v
+        return F.sym(s)
+
+    def heap_slots(self, obj):
+        return [k for k in self.env if k.startswith(obj + ".") or k.startswith(obj + "[")]
+
+    def slot_value(self, slot):
+        """value of a carried slot: a name, an attribute path, a heap slot, or a component name[k] of a tuple"""
+        if slot in self.env:
+            return self.env[slot]
+        if slot.endswith("]") and "[" in slot:
+            base, _, k = slot[:-1].rpartition("[")
+            try:
+                k = int(k)
+            except ValueError:
+                return None
+            v = self.slot_value(base)
+            if isinstance(v, tuple) and -len(v) <= k < len(v):
+                return v[k]
+        return None
 
     def _T(self, v):
         if is_unknown(v) or isinstance(v, tuple):
@@ -529,6 +692,17 @@ class GenEval(AutoEvaluator):
             return base
         if isinstance(base, tuple):
             return self._tuple_index(base, node)
+        if not isinstance(base, F.Rat):
+            return Unknown(f"subscript of {base!r}")
+        s = symname(base)
+        if s is not None and self.heap.get(s) == "dict":
+            ck = self._const_key(self.ev(node.slice))
+            if ck is None:
+                return Unknown(f"dict lookup with a key that is not a constant: {ast.unparse(node)}")
+            k = f"{s}[{slot_key(ck)}]"
+            if k in self.env:
+                return self.env[k]
+            return Unknown(f"key {ck!r} of the dict is not defined")
         try:
             comps = self._comps(node.slice)
             return self._index(base, comps)
@@ -666,12 +840,122 @@ class GenEval(AutoEvaluator):
         self.calls.append((name, pos, kws, node))
         self.events.append(("call", name, pos, kws, node))
 
+    def _callee_value(self, node):
+        """the value the called expression has when it is not simply the name of a function / method defined elsewhere"""
+        f = node.func
+        if isinstance(f, ast.Name):
+            if f.id in self.env:
+                return self.env[f.id]
+            if f.id not in self.locals_ and self.rel is not None:
+                c = self.consts.get(self.rel, f.id)
+                if is_callable_value(c):
+                    return c
+            return None
+        if isinstance(f, ast.Attribute):
+            d = self.canon_dotted(f)
+            if d is not None and d in self.env:
+                return self.env[d]
+            return None
+        return self.ev(f)
+
+    def _apply_value(self, fv, node, argvals=None):
+        """call of a function value (closure, getter, partial); NotImplemented when the value is not one.  A call that cannot be followed
+        is an error: its effects on the arrays would be lost."""
+        if not is_callable_value(fv):
+            return NotImplemented
+        av = argvals if argvals is not None else self._argvals(node)
+        if av is None:
+            return self._lost(f"call `{ast.unparse(node)[:60]}` with starred arguments that are not sequences built here")
+        if isinstance(fv, Closure):
+            return self._call_closure(fv, node, av)
+        if isinstance(fv, Getter):
+            if len(av[0]) != 1 or av[1]:
+                raise Unsupported("getter called with other than one argument")
+            out = []
+            for k in fv.keys:
+                v = av[0][0]
+                if fv.kind == "attr":
+                    for part in k.split("."):
+                        v = self.attr_value(v, part)
+                elif fv.kind == "item":
+                    v = self.item_value(v, k)
+                else:
+                    v = self.index_value(v, k)
+                out.append(v)
+            return out[0] if len(out) == 1 else tuple(out)
+        pos, kw = list(fv.args) + list(av[0]), dict(fv.kw)
+        kw.update(av[1])
+        inner = fv.func
+        if is_callable_value(inner):
+            return self._apply_value(inner, node, (pos, kw))
+        nm = symname(inner)
+        if nm is not None and nm in self.inline:
+            r = self._inline(node, nm, (pos, kw))
+            if r is not NotImplemented:
+                return r
+        return self._lost(f"partial of a function that cannot be followed: {ast.unparse(node)[:60]}")
+
+    def _lost(self, msg):
+        self.facts.lost.append(msg)
+        raise Unsupported(msg)
+
+    def index_value(self, base, key):
+        """<base value>[key value]"""
+        if is_unknown(base) or is_unknown(key):
+            return base if is_unknown(base) else key
+        if isinstance(base, tuple):
+            ck = self._const_key(key)
+            return self.item_value(base, ck) if isinstance(ck, int) else Unknown("index into a tuple")
+        if not isinstance(base, F.Rat) or not isinstance(key, F.Rat):
+            return Unknown("subscript")
+        s_ = symname(base)
+        if s_ is not None and self.heap.get(s_) == "dict":
+            ck = self._const_key(key)
+            return self.item_value(base, ck) if ck is not None else Unknown("dict lookup with a key that is not a constant")
+        try:
+            u = sem.unfn(key)
+            if symname(key) == "None":
+                return base
+            if u is not None and u[0] == "slice" and all(symname(a) == "None" for a in u[1]):
+                return base
+            return self._index(base, [key])
+        except Unsupported as e:
+            return Unknown(str(e))
+
+    def item_value(self, base, key):
+        """<base value>[constant key]"""
+        if is_unknown(base):
+            return base
+        if isinstance(base, tuple):
+            if isinstance(key, int) and -len(base) <= key < len(base):
+                return base[key]
+            return Unknown(f"item {key!r} of a tuple")
+        s = symname(base)
+        if s is not None and self.heap.get(s) == "dict":
+            return self.env.get(f"{s}[{slot_key(key)}]", Unknown(f"key {key!r} of the dict is not defined"))
+        if isinstance(key, int) and isinstance(base, F.Rat):
+            try:
+                return self._index(base, [F.const(key)])
+            except Unsupported as e:
+                return Unknown(str(e))
+        return Unknown(f"item {key!r}")
+
     def _call(self, node):
         name = self._callee_name(node)
+        fv = self._callee_value(node)
+        if fv is not None:
+            r = self._apply_value(fv, node)
+            if r is not NotImplemented:
+                return r
+            s_ = symname(fv)
+            if s_ is not None and s_ in self.inline:
+                name = s_          # a local that names a function / bound method defined elsewhere: `step = _cdf_step`, `f = self._helper`
         if name is not None and name in self.inline and self.inline_depth < 5 and self.inline[name] is not self.fn:
             r = self._inline(node, name)
             if r is not NotImplemented:
                 return r
+            if not _has_yield(self.inline[name]):
+                return self._lost(f"call `{ast.unparse(node)[:60]}` of a function of these modules cannot be followed")
         args = node.args
         kw = {k.arg: k.value for k in node.keywords if k.arg is not None}
         meth = node.func.attr if isinstance(node.func, ast.Attribute) else None
@@ -701,6 +985,7 @@ class GenEval(AutoEvaluator):
                 return NONE
         if name == "zip" and args and not kw:
             vs = [self.ev(a) for a in args]
+            vs = [tuple(F.sym(repr(ch)) for ch in strconst(v)) if strconst(v) is not None else v for v in vs]
             n = min((len(v) for v in vs if isinstance(v, tuple)), default=None)
             if n is not None:
                 cols = []
@@ -730,6 +1015,68 @@ class GenEval(AutoEvaluator):
             v = self.ev(args[0])
             if isinstance(v, tuple):
                 return v
+        if name is not None and name.split(".")[-1] == "SimpleNamespace" and not args and all(k.arg is not None for k in node.keywords):
+            self._record_call(node)
+            return self._new_namespace({k: self.ev(x) for k, x in kw.items()}, node)
+        if name == "dict" and not args and all(k.arg is not None for k in node.keywords):
+            return self._new_dict([(F.sym(repr(k)), self.ev(x)) for k, x in kw.items()], node)
+        if name in ("functools.partial", "partial") and args and all(k.arg is not None for k in node.keywords) \
+                and not any(isinstance(a, ast.Starred) for a in args):
+            f0 = args[0]
+            fv0 = self._callee_value(ast.Call(func=f0, args=[], keywords=[]))
+            if fv0 is None:
+                nm0 = self._callee_name(ast.Call(func=f0, args=[], keywords=[]))
+                fv0 = F.sym(nm0) if nm0 is not None else self.ev(f0)
+            return Partial(fv0, [self.ev(a) for a in args[1:]], {k: self.ev(x) for k, x in kw.items()})
+        if name is not None and name.split(".")[-1] in ("attrgetter", "itemgetter"):
+            g = getter_of(node)
+            if g is not None:
+                return g
+            if name.split(".")[-1] == "itemgetter" and args and not kw and not any(isinstance(a, ast.Starred) for a in args):
+                return Getter("index", [self.ev(a) for a in args])
+        if meth in ("append", "extend", "insert") and isinstance(node.func.value, ast.Name) and isinstance(self.env.get(node.func.value.id), tuple) \
+                and not kw and not any(isinstance(a, ast.Starred) for a in args):
+            lst, nm_ = self.env[node.func.value.id], node.func.value.id
+            if nm_ in self.params_:
+                return self._lost(f"`{ast.unparse(node)[:60]}`: a list received as an argument is changed in place")
+            if meth == "append" and len(args) == 1:
+                self.env[nm_] = lst + (self.ev(args[0]),)
+                return NONE
+            if meth == "extend" and len(args) == 1 and isinstance(self.ev(args[0]), tuple):
+                self.env[nm_] = lst + self.ev(args[0])
+                return NONE
+            return self._lost(f"`{ast.unparse(node)[:60]}`")
+        if name in ("np.copyto", "np.put", "np.place", "np.putmask", "np.put_along_axis"):
+            return self._lost(f"in-place procedure {name}")
+        if name == "bool" and len(args) == 1 and not kw:
+            v = self.ev(args[0])
+            t = truth(v, self.facts)
+            return v if t is None else F.sym("True" if t else "False")
+        if name == "len" and len(args) == 1 and not kw:
+            v = self.ev(args[0])
+            if isinstance(v, tuple):
+                return F.const(len(v))
+        if name == "enumerate" and len(args) == 1 and not kw:
+            v = self.ev(args[0])
+            if isinstance(v, tuple):
+                return tuple((F.const(k), x) for k, x in enumerate(v))
+        if name == "range" and 1 <= len(args) <= 2 and not kw:
+            vs = [self.ev(a) for a in args]
+            if all(isinstance(x, F.Rat) and x.is_const() and x.const_value().denominator == 1 for x in vs):
+                ks = [int(x.const_value()) for x in vs]
+                lo, hi = (0, ks[0]) if len(ks) == 1 else ks
+                if 0 <= hi - lo <= 16:
+                    return tuple(F.const(k) for k in range(lo, hi))
+        if meth in ("get",) and isinstance(node.func, ast.Attribute) and 1 <= len(args) <= 2 and not kw:
+            b_ = symname(self.ev(node.func.value))
+            if b_ is not None and self.heap.get(b_) == "dict":
+                ck = self._const_key(self.ev(args[0]))
+                if ck is None:
+                    return Unknown("dict.get with a key that is not a constant")
+                k_ = f"{b_}[{slot_key(ck)}]"
+                if k_ in self.env:
+                    return self.env[k_]
+                return self.ev(args[1]) if len(args) == 2 else NONE
 
         self._record_call(node)
 
@@ -759,7 +1106,7 @@ class GenEval(AutoEvaluator):
             return NONE
         if name in ("np.copy",) and len(args) >= 1:
             v = self.ev(args[0])
-            return self._fresh("copy", v) if self.fresh_arrays else v
+            return self._fresh("copy", v) if self.fresh_arrays is True else v
         if name in ZERO_CTORS or name in ("np.ones", "np.ones_like"):
             if self.fresh_arrays:
                 return self._fresh("zeros" if name in ZERO_CTORS else "ones", None)
@@ -769,7 +1116,7 @@ class GenEval(AutoEvaluator):
                 return self.ev(node.func.value)
             if meth == "copy":
                 v = self.ev(node.func.value)
-                return self._fresh("copy", v) if self.fresh_arrays else v
+                return self._fresh("copy", v) if self.fresh_arrays is True else v
             if meth == "transpose" and not args:
                 return self._T(self.ev(node.func.value))
             if meth == "dot" and len(args) == 1:
@@ -857,63 +1204,102 @@ class GenEval(AutoEvaluator):
         return F.fn("call:" + name, *args)
 
     # ---- following a helper on its argument values
-    def _inline(self, node, name):
-        fn = self.inline[name]
+    def _argvals(self, node):
+        """([positional values], {keyword: value}) of a call; `*t` with a tuple value and `**d` with a dict built here are expanded"""
+        pos, kw = [], {}
+        for a in node.args:
+            if isinstance(a, ast.Starred):
+                v = self.ev(a.value)
+                if not isinstance(v, tuple):
+                    return None
+                pos.extend(v)
+            else:
+                pos.append(self.ev(a))
+        for k in node.keywords:
+            if k.arg is None:
+                s_ = symname(self.ev(k.value))
+                if s_ is None or self.heap.get(s_) != "dict":
+                    return None
+                for slot in self.heap_slots(s_):
+                    try:
+                        key = ast.literal_eval(slot[len(s_) + 1:-1])
+                    except Exception:  # noqa
+                        return None
+                    if not isinstance(key, str):
+                        return None
+                    kw[key] = self.env[slot]
+            else:
+                kw[k.arg] = self.ev(k.value)
+        return pos, kw
+
+    def _bind(self, fn, pos, kw, skip_first, dev):
+        """{parameter: value} of a call of `fn` (defaults evaluated by `dev`), or None when the call does not fit the signature"""
         a = fn.args
         params = [x.arg for x in a.posonlyargs + a.args]
-        method = bool(params) and params[0] in ("self", "cls") and "." in name
-        if method:
+        if skip_first:
             params = params[1:]
-        if a.vararg or a.kwarg or any(isinstance(x, ast.Starred) for x in node.args) or any(k.arg is None for k in node.keywords):
-            return NotImplemented
-        if len(node.args) > len(params) or _has_yield(fn):
-            return NotImplemented
         env = {}
-        for p_, x in zip(params, node.args):
-            env[p_] = self.ev(x)
+        pos = list(pos)
+        if len(pos) > len(params):
+            if not a.vararg:
+                return None
+            env[a.vararg.arg] = tuple(pos[len(params):])
+            pos = pos[:len(params)]
+        elif a.vararg:
+            env[a.vararg.arg] = ()
+        for p_, x in zip(params, pos):
+            env[p_] = x
         kwonly = [x.arg for x in a.kwonlyargs]
-        for k in node.keywords:
-            if k.arg not in params and k.arg not in kwonly:
-                return NotImplemented
-            env[k.arg] = self.ev(k.value)
+        extra = []
+        for k, v in kw.items():
+            if k in params or k in kwonly:
+                if k in env:
+                    return None
+                env[k] = v
+            elif a.kwarg:
+                extra.append((F.sym(repr(k)), v))
+            else:
+                return None
+        if a.kwarg:
+            env[a.kwarg.arg] = self._new_dict(extra, fn)
         dflt = dict(zip(params[::-1], (a.defaults or [])[::-1]))
         for p_ in params:
             if p_ not in env:
-                if p_ in dflt:
-                    env[p_] = self.ev(dflt[p_])
-                else:
-                    return NotImplemented
+                if p_ not in dflt:
+                    return None
+                env[p_] = dev.ev(dflt[p_])
         for p_, d in zip(kwonly, a.kw_defaults):
-            if p_ not in env and d is not None:
-                env[p_] = self.ev(d)
-        recv = name.rsplit(".", 1)[0] if method else None
-        if method:
-            # the object's attributes are visible to its methods
-            for k, v in self.env.items():
-                if k.startswith(recv + ".") and k not in env:
-                    env["self." + k[len(recv) + 1:]] = v
-        sub = GenEval(self.ctx, fn, env=env, facts=self.facts, inline=self.inline, refhook=self.refhook, sided=self.sided,
-                      fresh_arrays=self.fresh_arrays, consts=self.consts, depth=self.inline_depth + 1, strict=True)
+            if p_ not in env:
+                if d is None:
+                    return None
+                env[p_] = dev.ev(d)
+        return env
+
+    def _sub(self, fn, env, strict=True):
+        sub = type(self)(self.ctx, fn, env=env, facts=self.facts, inline=self.inline, refhook=self.refhook, sided=self.sided,
+                         fresh_arrays=self.fresh_arrays, consts=self.consts, depth=self.inline_depth + 1, strict=strict, shapes=self.shapes,
+                         heap=self.heap, heap_written=self.heap_written, heap_carried=self.heap_carried)
         sub.erase_T = self.erase_T
         sub.seq = self.seq
         sub.fresh = self.fresh
         sub.in_loop = False
-        self.trace.append(("enter", node, fn))
-        sub.run(fn.body)
+        sub.carry_over = self.carry_over
+        return sub
+
+    def _merge(self, sub, keep_loop_flags=False):
         self.trace.extend(sub.trace)
-        self.trace.append(("exit", node, fn))
         self.calls.extend(sub.calls)
         self.call_seq.extend(sub.call_seq)
         self.events.extend(sub.events)
         for c in sub.gcells:
-            c = dict(c, in_loop=self.in_loop)
-            self.gcells.append(c)
+            self.gcells.append(c if keep_loop_flags else dict(c, in_loop=self.in_loop))
         self.skipped_guards.extend(sub.skipped_guards)
+        self.skipped_handlers.extend(sub.skipped_handlers)
+        self.prime_yields.extend(sub.prime_yields)
+        self.maybe_prime.extend(sub.maybe_prime)
         self.seq = sub.seq
-        if method:
-            for k, v in sub.env.items():
-                if k.startswith("self.") and k not in params:
-                    self.env[recv + "." + k[5:]] = v
+
+    def _result(self, sub):
         if any(e[0] == "raise" for e in sub.events) and not sub.returns:
             self.done = True
             return NONE
@@ -921,6 +1307,128 @@ class GenEval(AutoEvaluator):
             return NONE
         v = sub.returns[-1][0]
         return NONE if v is None else v
+
+    def _inline(self, node, name, argvals=None, gen=False):
+        """follow a function / method defined elsewhere on its argument values; gen: a sub-generator entered through `yield from`"""
+        fn = self.inline[name]
+        if _has_yield(fn) != gen:
+            return NotImplemented
+        params = [x.arg for x in fn.args.posonlyargs + fn.args.args]
+        method = bool(params) and params[0] in ("self", "cls") and "." in name
+        unbound = False
+        if not method and "." in name and bool(params) and params[0] in ("self", "cls"):
+            unbound = True                      # Class.method(self, ...): the receiver is the first argument
+        av = argvals if argvals is not None else self._argvals(node)
+        if av is None:
+            return NotImplemented
+        pos, kw = av
+        recv = name.rsplit(".", 1)[0] if method else None
+        if unbound:
+            if not pos or symname(pos[0]) is None:
+                return NotImplemented
+            recv, pos, method = symname(pos[0]), pos[1:], True
+        env = self._bind(fn, pos, kw, method, self)
+        if env is None:
+            return NotImplemented
+        own = set(env)
+        if method:
+            # the object's attributes are visible to its methods
+            for k, v in self.env.items():
+                if k.startswith(recv + ".") and ("self." + k[len(recv) + 1:]) not in env:
+                    env["self." + k[len(recv) + 1:]] = v
+        for k, v in self.env.items():
+            if k.startswith(HEAP):
+                env[k] = v
+        sub = self._sub(fn, env, strict=(True if not gen else self.strict))
+        if gen:
+            sub.in_loop = self.in_loop
+        self.trace.append(("enter", node, fn))
+        sub.run(fn.body)
+        self._merge(sub, keep_loop_flags=gen)
+        self.trace.append(("exit", node, fn))
+        if method:
+            for k, v in sub.env.items():
+                if k.startswith("self.") and k not in own:
+                    self.env[recv + "." + k[5:]] = v
+        for k, v in sub.env.items():
+            if k.startswith(HEAP):
+                self.env[k] = v
+        if gen and self._adopt_loop(sub):
+            return NONE
+        return self._result(sub)
+
+    def _adopt_loop(self, sub):
+        """a sub-generator that reached its own receiving loop never returns: its loop is the loop of this generator"""
+        if sub.loop is None:
+            return False
+        if self.loop is not None or self.in_loop:
+            raise Unsupported("nested generator loops")
+        self.loop = sub.loop
+        self.loop_ev = sub.loop_ev or sub
+        self.done = True
+        return True
+
+    def _call_closure(self, clo, node, argvals=None, gen=False):
+        fn = clo.node
+        body = fn.body if isinstance(fn, ast.Lambda) else None
+        if (_has_yield(fn) and not isinstance(fn, ast.Lambda)) != gen:
+            return Unknown("call of a generator function defined here") if not gen else NotImplemented
+        if self.inline_depth >= 6:
+            return self._lost("closure nesting too deep")
+        av = argvals if argvals is not None else self._argvals(node)
+        if av is None:
+            return self._lost("call of a local function with starred arguments that are not tuples built here")
+        bound = self._bind(fn, av[0], av[1], False, clo.ev)
+        if bound is None:
+            return self._lost(f"call of {clo!r} does not fit its signature")
+        env = dict(clo.ev.env)          # late binding: the defining scope as it is now
+        if clo.ev is not self:
+            for k, v in self.env.items():
+                if k.startswith(HEAP):
+                    env[k] = v
+        before = dict(env)
+        env.update(bound)
+        sub = self._sub(fn, env, strict=(True if not gen else self.strict))
+        sub.rel = clo.ev.rel
+        if gen:
+            sub.in_loop = self.in_loop
+        self.trace.append(("enter_closure", node, fn))
+        if body is not None:
+            sub.returns.append((sub.ev(body), fn))
+        else:
+            sub.run(fn.body)
+        self._merge(sub, keep_loop_flags=gen)
+        self.trace.append(("exit", node, fn))
+        shadow = set(bound) | sub.locals_
+        for k, v in sub.env.items():
+            root = k.split(".")[0].split("[")[0]
+            if k in sub.nonlocals_ or (k.startswith(HEAP)) or ("." in k and root not in shadow):
+                if before.get(k) is not v:
+                    clo.ev.env[k] = v
+                    if k.startswith(HEAP):
+                        self.env[k] = v
+        if gen and self._adopt_loop(sub):
+            return NONE
+        return self._result(sub)
+
+    def _yield_from(self, node):
+        """`yield from g(...)`: the sub-generator's body runs in place of the statement (its receiving `yield`s are this generator's)"""
+        call = node.value
+        if not isinstance(call, ast.Call):
+            raise Unsupported(f"yield from `{ast.unparse(call)[:60]}`")
+        name = self._callee_name(call)
+        fv = self._callee_value(call)
+        if isinstance(fv, Closure):
+            r = self._call_closure(fv, call, gen=True)
+            if r is not NotImplemented:
+                return r
+        if fv is not None and symname(fv) in self.inline:
+            name = symname(fv)
+        if name is not None and name in self.inline and self.inline_depth < 5 and self.inline[name] is not self.fn:
+            r = self._inline(call, name, gen=True)
+            if r is not NotImplemented:
+                return r
+        raise Unsupported(f"yield from `{ast.unparse(call.func)}`: the sub-generator is not a function of these modules")
 
     # ------------------------------------------------------------------ statements
     def run(self, stmts):
@@ -992,12 +1500,22 @@ class GenEval(AutoEvaluator):
             self.run(st.body)
             return
         if isinstance(st, ast.Try):
-            raise Unsupported("try")
+            # the path without an exception: accepted inputs raise nothing (the handlers are not followed)
+            if _has_yield_in_handlers(st):
+                raise Unsupported("a `yield` inside an exception handler")
+            self.skipped_handlers.extend(st.handlers)
+            self.run(st.body)
+            self.run(st.orelse)
+            self.run(st.finalbody)
+            return
+        if isinstance(st, (ast.FunctionDef,)):
+            self.env[st.name] = Closure(st, self)
+            return
         if isinstance(st, (ast.Assign, ast.AugAssign, ast.AnnAssign, ast.Return)):
             Evaluator.stmt(self, st)
             self.trace.append(("stmt", st))
             return
-        if isinstance(st, (ast.Pass, ast.Import, ast.ImportFrom, ast.Assert, ast.Global, ast.Nonlocal, ast.FunctionDef)):
+        if isinstance(st, (ast.Pass, ast.Import, ast.ImportFrom, ast.Assert, ast.Global, ast.Nonlocal)):
             return
         raise Unsupported(f"statement {type(st).__name__}")
 
@@ -1012,21 +1530,34 @@ class GenEval(AutoEvaluator):
         if self.loop is not None:
             raise Unsupported("nested generator loops")
         self.loop = st
+        self.loop_ev = self
         self.pre_env = dict(self.env)
         seen = set()
         for t_ in _store_targets(st.body):
             d = t_.id if isinstance(t_, ast.Name) else self.canon_dotted(t_)
-            if not d or d in seen:
+            if not d or d in seen or d.startswith(HEAP):
                 continue
             seen.add(d)
-            self.carried.append(d)
-            if d in self.env:
-                self.carry_init[d] = self.env[d]
-            self.env[d] = self.carry_over.get(d, F.sym("carry:" + d))
+            self.env[d] = self._carry(d, self.env.get(d), d in self.env)
+        # mutable objects that exist when the loop is entered: what an earlier send stored into them is still there
+        self.heap_entry = sorted(k for k in self.env if k.startswith(HEAP))
+        for k in self.heap_entry:
+            if self.heap_carried is None or k in self.heap_carried:
+                self.env[k] = self._carry(k, self.env[k], True)
+        self.heap_written.clear()
         self.in_loop = True
         self.trace.append(("loop", st))
         self.run(st.body)
         self.done = True          # the loop never ends: nothing after it is reachable
+
+    def _carry(self, slot, init, bound):
+        """the value a carried slot starts the iteration with: what an earlier send left there.  A tuple is carried component by component."""
+        if isinstance(init, tuple):
+            return tuple(self._carry(f"{slot}[{k}]", x, True) for k, x in enumerate(init))
+        self.carried.append(slot)
+        if bound:
+            self.carry_init[slot] = init
+        return self.carry_over.get(slot, F.sym("carry:" + slot))
 
     def _for(self, st):
         it = self.ev(st.iter)
@@ -1044,10 +1575,6 @@ class GenEval(AutoEvaluator):
             self.env[target.id] = v
             if symname(v) == "F1all":
                 self.trace.append(("bind", target.id, "F1all"))
-            sc = sem.split_call(v) if (v is not None and not is_unknown(v) and not isinstance(v, tuple)) else None
-            if sc is not None and sc[0].split(".")[-1] == "SimpleNamespace" and not sc[1]:
-                for k, val in sc[2].items():
-                    self.env[f"{target.id}.{k}"] = val
             return
         if isinstance(target, ast.Attribute):
             d = self.canon_dotted(target)
@@ -1055,11 +1582,23 @@ class GenEval(AutoEvaluator):
                 raise Unsupported(f"attribute store {ast.unparse(target)}")
             if d not in self.pinned:
                 self.env[d] = v
-                self.events.append(("setattr", d, v, st))
+                if d.startswith(HEAP):
+                    self.heap_written.add(d)
+                else:
+                    self.events.append(("setattr", d, v, st))
             return
         if isinstance(target, (ast.Tuple, ast.List)):
             n = len(target.elts)
-            if isinstance(v, tuple) and len(v) == n:
+            stars = [k for k, t in enumerate(target.elts) if isinstance(t, ast.Starred)]
+            if len(stars) == 1 and isinstance(v, tuple) and len(v) >= n - 1:
+                k = stars[0]
+                tail = n - 1 - k
+                for t, x in zip(target.elts[:k], v[:k]):
+                    self._assign(t, x, st)
+                self._assign(target.elts[k].value, tuple(v[k:len(v) - tail]), st)
+                for t, x in zip(target.elts[k + 1:], v[len(v) - tail:]):
+                    self._assign(t, x, st)
+            elif isinstance(v, tuple) and len(v) == n and not stars:
                 for t, x in zip(target.elts, v):
                     self._assign(t, x, st)
             elif v is not None and not is_unknown(v) and not isinstance(v, tuple) and sem.unfn(v) is not None \
@@ -1071,6 +1610,26 @@ class GenEval(AutoEvaluator):
                     self._assign(t, Unknown("tuple unpacking of a non-tuple"), st)
             return
         if isinstance(target, ast.Subscript):
+            bv = self.ev(target.value)
+            bs = symname(bv)
+            if bs is not None and self.heap.get(bs) == "dict":
+                ck = self._const_key(self.ev(target.slice))
+                if ck is None:
+                    raise Unsupported(f"store into a dict under a key that is not a constant: {ast.unparse(target)}")
+                k = f"{bs}[{slot_key(ck)}]"
+                self.env[k] = v
+                self.heap_written.add(k)
+                return
+            if isinstance(bv, tuple):
+                # a list built here: the element is replaced (the list must not be shared with a helper, see _bind callers)
+                ck = self._const_key(self.ev(target.slice))
+                d = target.value.id if isinstance(target.value, ast.Name) else self.canon_dotted(target.value) if isinstance(target.value, ast.Attribute) else None
+                if d is None or not isinstance(ck, int) or not -len(bv) <= ck < len(bv) or d in self.params_:
+                    raise Unsupported(f"store into a sequence: {ast.unparse(target)}")
+                lst = list(bv)
+                lst[ck] = v
+                self.env[d] = tuple(lst)
+                return
             ref = self.target_ref(target)
             cur = None
             if aug:
@@ -1101,7 +1660,7 @@ def inline_table(ctx, specs, exclude=()):
         for k, v in t.items():
             if k.startswith("self.") and k[5:] in exclude:
                 continue
-            if _has_yield(v):
-                continue
-            out.setdefault(k, v)
+            out.setdefault(k, v)                      # generator functions too: followed only through `yield from`
+            if k.startswith("self.") and cls:
+                out.setdefault(f"{cls}.{k[5:]}", v)   # Class.method(self, ...)
     return out
